@@ -237,4 +237,22 @@ def runPilot (N : Nat) : St → List St → St × List St
       match runPilot N c ts with
       | (c', cbs') => (c', cbs ++ cbs')
 
+/-! ### the callback chain of `Pilot._update`
+
+Callbacks registered on the pilot object (the task manager's `_pilot_state_cb` is one of them:
+`TaskManager.add_pilots` registers it there) run first, in registration order; the callbacks
+registered on the pilot manager run after them.  An exception raised by a callback ends the chain. -/
+
+structure Cb where
+  id     : Nat
+  raises : Bool
+deriving DecidableEq, Repr
+
+/-- the ids of the callbacks that are called (the raising one is the last) -/
+def runChain : List Cb → List Nat
+  | []      => []
+  | c :: cs => if c.raises then [c.id] else c.id :: runChain cs
+
+def pilotUpdateCbs (pilotCbs pmgrCbs : List Cb) : List Nat := runChain (pilotCbs ++ pmgrCbs)
+
 end RPVerif.States
